@@ -298,6 +298,10 @@ func (t *SimTransport) rec(c TCall, m datatransfer.Message) error {
 		gt(c)
 	}
 	if fail {
+		if c.Call == "close" {
+			// what the real adapter answers for a channel it does not track (request never started, or cleaned up already)
+			return fmt.Errorf("simtransport: close failed: %w", datatransfer.ErrChannelNotFound)
+		}
 		return errors.New("simtransport: " + c.Call + " failed")
 	}
 	if cb != nil {
